@@ -10,7 +10,7 @@ def knobs(r, i):
 
 def run(v, tier, seed, replay):
     cases, impl, model = seqcheck.run(v, tier, seed, replay, "C03", ["C03"], tree_oracles=["no_panic", "exactly_once", "tree"], knobs=knobs,
-                 n_quick=(600, 100), n_thorough=(60000, 5000),
+                 n_quick=(1800, 300), n_thorough=(60000, 5000),
                  assumptions=["cross-thread completeness relies on the two-pass drain with deferred commits and carried second-pass commands (defects D4, D14, repaired); cycles are run whole and step by step with operations of all threads in between"])
     if not replay and not v.violations:
         scen = {"big-trace-%d" % 1: c09.sc_big_trace(1), "recovery-%d" % 1: c09.sc_recovery(1)}
